@@ -39,6 +39,20 @@ theorem C14_hybrid_sequential_counts_partial (K N : Nat) (hK : 0 < K) (cfg : Cfg
       (run (State.initial cfg progs) (seqSched bs)).sh.regs N a :=
   seq_between_ops_counts K N hK cfg progs bs h hidle a ha
 
+/-- … and when no guard in a register still borrows (every guard owns its reference), no debt slot of
+    any node names a value and every strong count is exactly the number of owners — what `Spec`
+    says of counts at all times -/
+theorem C14_hybrid_sequential_at_rest_partial (K N : Nat) (hK : 0 < K) (cfg : Cfg)
+    (progs : Nat → List (String × Op)) (bs : List Bool) (h : SeqRun K N (State.initial cfg progs) bs)
+    (hidle : ∀ t, ((run (State.initial cfg progs) (seqSched bs)).th t).op = .idle ∨
+      ((run (State.initial cfg progs) (seqSched bs)).th t).op = .finished)
+    (hg : ∀ g gd, (run (State.initial cfg progs) (seqSched bs)).sh.greg g = some gd → gd.debt = none) :
+    (∀ n i a, ((run (State.initial cfg progs) (seqSched bs)).sh.nodes n).fast i ≠ .ptr a ∧
+        ((run (State.initial cfg progs) (seqSched bs)).sh.nodes n).hslot ≠ .ptr a) ∧
+      ∀ a, a ≠ 0 → ((run (State.initial cfg progs) (seqSched bs)).sh.heap a).cnt =
+        (run (State.initial cfg progs) (seqSched bs)).sh.regs N a :=
+  C02_at_rest K N 1 hK cfg progs _ (seqRun_env K N hK cfg progs bs h) (seq_run_fault_free K N hK cfg progs bs h) hidle hg
+
 /-- a single thread never hands a replacement over to itself: no control word ever holds an
     envelope, so the assumptions of the ledger hold (`EnvRun0`) -/
 theorem C14_hybrid_sequential_meets_ledger_assumptions (K N : Nat) (hK : 0 < K) (cfg : Cfg)
